@@ -99,7 +99,8 @@ pub fn gen(seed: u64, thorough: bool) -> Vec<String> {
             }
         }
     }
-    let four_k: Vec<&str> = if thorough { FORMATS.iter().map(|(n, _)| *n).collect() } else { vec!["NV12", "P010", "P016", "R8_UNORM", "BC1_UNORM"] };
+    // every format at 4096x4096 with the default limit (also in the quick tier)
+    let four_k: Vec<&str> = FORMATS.iter().map(|(n, _)| *n).collect();
     for name in four_k {
         let (nc, np) = c06::natural_colour(name);
         v.push(format!("full {name} {nc} {np} 4096 4096 d"));
